@@ -64,6 +64,7 @@ fn parent_and_kind_contract() {
     let v: usize = kani::any();
     let l = DecompNode::Leaf([p], v);
     assert!(l.parent() == p && l.is_leaf() && !l.is_interior() && l.nhd().len() == 1 && l.nhd()[0] == p, "leaf: parent / kind / nhd");
-    let i = DecompNode::Interior([kani::any(), kani::any(), kani::any()]);
-    assert!(!i.is_leaf() && i.is_interior() && i.nhd().len() == 3, "interior: kind / nhd");
+    let (a, b, c): (usize, usize, usize) = (kani::any(), kani::any(), kani::any());
+    let i = DecompNode::Interior([a, b, c]);
+    assert!(!i.is_leaf() && i.is_interior() && i.nhd().len() == 3 && i.nhd()[0] == a && i.nhd()[1] == b && i.nhd()[2] == c, "interior: kind / nhd");
 }
